@@ -1,0 +1,150 @@
+//go:build verif
+
+package actionlint
+
+import (
+	"crypto/sha256"
+	"fmt"
+	"sort"
+	"strings"
+)
+
+// This file is only compiled with the build tag "verif". It gives an external verification harness
+// read access to package-level tables and lets it observe scheduling points of concurrentProcess.
+
+// VerifSchedHook, when set, is called at the scheduling points of concurrentProcess with the name
+// of the point. It must be set before linting starts and not be changed while linting.
+var VerifSchedHook func(point string)
+
+func verifSched(point string) {
+	if h := VerifSchedHook; h != nil {
+		h(point)
+	}
+}
+
+func verifSortedKeys[T any](m map[string]T) []string {
+	ks := make([]string, 0, len(m))
+	for k := range m {
+		ks = append(ks, k)
+	}
+	sort.Strings(ks)
+	return ks
+}
+
+// VerifTablesDump returns a canonical text dump of the package-level tables (exported and
+// unexported). The order of elements inside slices is kept, so that an in-place modification such as
+// sorting a shared slice changes the dump.
+func VerifTablesDump() string {
+	var b strings.Builder
+	section := func(name string) { fmt.Fprintf(&b, "## %s\n", name) }
+
+	section("AllWebhookTypes")
+	for _, k := range verifSortedKeys(AllWebhookTypes) {
+		fmt.Fprintf(&b, "%s: %q\n", k, AllWebhookTypes[k])
+	}
+	section("SpecialFunctionNames")
+	for _, k := range verifSortedKeys(SpecialFunctionNames) {
+		fmt.Fprintf(&b, "%s: %q\n", k, SpecialFunctionNames[k])
+	}
+	section("allWorkflowKeys")
+	fmt.Fprintf(&b, "%q\n", allWorkflowKeys)
+	for _, k := range allWorkflowKeys {
+		ctx, sp := WorkflowKeyAvailability(k)
+		fmt.Fprintf(&b, "%s: %q %q\n", k, ctx, sp)
+	}
+	section("BuiltinFuncSignatures")
+	for _, k := range verifSortedKeys(BuiltinFuncSignatures) {
+		for _, s := range BuiltinFuncSignatures[k] {
+			ps := make([]string, 0, len(s.Params))
+			for _, p := range s.Params {
+				ps = append(ps, p.String())
+			}
+			fmt.Fprintf(&b, "%s: %s(%s) %s variadic=%v\n", k, s.Name, strings.Join(ps, ","), s.Ret.String(), s.VariableLengthParams)
+		}
+	}
+	section("BuiltinGlobalVariableTypes")
+	for _, k := range verifSortedKeys(BuiltinGlobalVariableTypes) {
+		fmt.Fprintf(&b, "%s: %s\n", k, verifTypeDump(BuiltinGlobalVariableTypes[k]))
+	}
+	section("BuiltinUntrustedInputs")
+	var walk func(prefix string, m *UntrustedInputMap)
+	walk = func(prefix string, m *UntrustedInputMap) {
+		fmt.Fprintf(&b, "%s%s\n", prefix, m.Name)
+		for _, k := range verifSortedKeys(m.Children) {
+			walk(prefix+"  ", m.Children[k])
+		}
+	}
+	for _, k := range verifSortedKeys(BuiltinUntrustedInputs) {
+		walk("", BuiltinUntrustedInputs[k])
+	}
+	section("PopularActions")
+	for _, k := range verifSortedKeys(PopularActions) {
+		m := PopularActions[k]
+		fmt.Fprintf(&b, "%s: name=%q skipIn=%v skipOut=%v using=%q\n", k, m.Name, m.SkipInputs, m.SkipOutputs, m.Runs.Using)
+		for _, i := range verifSortedKeys(m.Inputs) {
+			fmt.Fprintf(&b, "  in %s %q %v\n", i, m.Inputs[i].Name, m.Inputs[i].Required)
+		}
+		for _, o := range verifSortedKeys(m.Outputs) {
+			fmt.Fprintf(&b, "  out %s %q\n", o, m.Outputs[o].Name)
+		}
+	}
+	section("OutdatedPopularActionSpecs")
+	fmt.Fprintf(&b, "%q\n", verifSortedKeys(OutdatedPopularActionSpecs))
+	section("BrandingColors")
+	fmt.Fprintf(&b, "%q\n", verifSortedKeys(BrandingColors))
+	section("BrandingIcons")
+	fmt.Fprintf(&b, "%q\n", verifSortedKeys(BrandingIcons))
+	section("allPermissionScopes")
+	fmt.Fprintf(&b, "%q\n", verifSortedKeys(allPermissionScopes))
+	section("runner labels")
+	fmt.Fprintf(&b, "%q\n%q\n%q\n", allGitHubHostedRunnerLabels, selfHostedRunnerPresetOSLabels, selfHostedRunnerPresetOtherLabels)
+	for _, k := range verifSortedKeys(defaultRunnerOSCompats) {
+		fmt.Fprintf(&b, "%s: %d\n", k, defaultRunnerOSCompats[k])
+	}
+	return b.String()
+}
+
+// verifTypeDump prints a type structurally, including the flags String() does not show.
+func verifTypeDump(t ExprType) string {
+	switch t := t.(type) {
+	case *ObjectType:
+		var b strings.Builder
+		b.WriteString("{")
+		for _, k := range verifSortedKeys(t.Props) {
+			fmt.Fprintf(&b, "%s:%s;", k, verifTypeDump(t.Props[k]))
+		}
+		if t.Mapped != nil {
+			fmt.Fprintf(&b, "=>%s", verifTypeDump(t.Mapped))
+		}
+		b.WriteString("}")
+		return b.String()
+	case *ArrayType:
+		return fmt.Sprintf("[%s deref=%v]", verifTypeDump(t.Elem), t.Deref)
+	case nil:
+		return "nil"
+	default:
+		return t.String()
+	}
+}
+
+// VerifTablesFingerprint returns a hash of VerifTablesDump.
+func VerifTablesFingerprint() string {
+	return fmt.Sprintf("%x", sha256.Sum256([]byte(VerifTablesDump())))
+}
+
+// VerifConfigDump returns a canonical dump of a configuration object (order inside slices kept).
+func VerifConfigDump(c *Config) string {
+	if c == nil {
+		return "<nil>"
+	}
+	var b strings.Builder
+	fmt.Fprintf(&b, "labels=%q vars=%q varsnil=%v\n", c.SelfHostedRunner.Labels, c.ConfigVariables, c.ConfigVariables == nil)
+	for _, k := range verifSortedKeys(c.Paths) {
+		fmt.Fprintf(&b, "path %q:", k)
+		for _, r := range c.Paths[k].Ignore {
+			fmt.Fprintf(&b, " %q", r.String())
+		}
+		b.WriteString("\n")
+	}
+	return b.String()
+}
